@@ -42,10 +42,10 @@ fn rnd() -> Option<u64> {
 fn next(size: usize) -> Vec<u8> {
     if let Some(x) = rnd() {
         let mut bytes = vec![0u8; size];
-        let style = x % 4;
-        if style == 0 {
-            bytes[0] = ((x >> 8) % 20) as u8; // small value
-        } else if style == 1 {
+        let style = x % 8;
+        if style <= 4 {
+            bytes[0] = ((x >> 8) % 6) as u8; // small value
+        } else if style == 5 {
             // boundary values
             let pick = (x >> 8) % 4;
             for (i, b) in bytes.iter_mut().enumerate() {
@@ -103,9 +103,14 @@ pub fn any<T: Arbitrary>() -> T {
     T::any()
 }
 
+/// Payload of the unwind that ends a native run whose recorded / random values break an assumption.
+pub struct AssumptionBroken;
+
 pub fn assume(cond: bool) {
     if !cond {
         ASSUME_BROKEN.with(|c| *c.borrow_mut() = true);
+        // stop here: code after a broken assumption must not run (it may allocate gigabytes or loop)
+        std::panic::resume_unwind(Box::new(AssumptionBroken));
     }
 }
 
